@@ -174,7 +174,38 @@ func digestNamer(_ *types.Package, f *types.Func) string {
 			h, _ := typeutil.Callee(pk.TypesInfo, dc).(*types.Func)
 			if h == nil || !(strings.HasPrefix(h.FullName(), "crypto/sha256.Sum") || strings.HasPrefix(h.FullName(), "crypto/sha512.Sum")) {
 				why = "the formatted value is not a SHA-2 digest"
+				return true
 			}
+			// the digest input is the identifier parameter itself (conversion only) and that
+			// parameter is never reassigned: distinct identifiers give distinct names
+			var param types.Object
+			if len(fd.Type.Params.List) == 1 && len(fd.Type.Params.List[0].Names) == 1 {
+				param = pk.TypesInfo.Defs[fd.Type.Params.List[0].Names[0]]
+			}
+			in := dc.Args[0]
+			for {
+				if conv, ok := in.(*ast.CallExpr); ok && len(conv.Args) == 1 {
+					if tv, ok := pk.TypesInfo.Types[conv.Fun]; ok && tv.IsType() {
+						in = conv.Args[0]
+						continue
+					}
+				}
+				break
+			}
+			if id, ok := in.(*ast.Ident); !ok || param == nil || objOf(pk, id) != param {
+				why = "the digest input is " + types.ExprString(dc.Args[0]) + ", not the identifier parameter itself"
+				return true
+			}
+			ast.Inspect(fd.Body, func(m ast.Node) bool {
+				if as, ok := m.(*ast.AssignStmt); ok {
+					for _, l := range as.Lhs {
+						if objOf(pk, l) == param {
+							why = "the identifier is rewritten (" + types.ExprString(as.Rhs[0]) + ") before it is hashed: identifiers that differ only in what the rewrite removes share one entry"
+						}
+					}
+				}
+				return true
+			})
 			return true
 		})
 		if nonErr == 0 && why == "" {
@@ -458,7 +489,12 @@ func retrieveValidates(c *Ctx) {
 						return strings.Contains(s, "GetId()") || strings.HasSuffix(s, ".Id")
 					}
 					if be.Op == token.NEQ && ((mentionsID(be.X) && mentionsDocID(be.Y)) || (mentionsID(be.Y) && mentionsDocID(be.X))) {
-						identity = true
+						// the comparison must decide the exit by itself: a top-level disjunct, never
+						// weakened by a conjunct (`md != nil && md.Id != id` lets an entry without
+						// metadata through)
+						if topLevelDisjunct(cond, be) {
+							identity = true
+						}
 					}
 				}
 				return true
@@ -493,6 +529,22 @@ func retrieveValidates(c *Ctx) {
 		return true
 	})
 	c.floor(R, 4, "three failure returns and one success return")
+}
+
+// topLevelDisjunct: atom is cond itself or reachable from cond through || (and parentheses) only.
+func topLevelDisjunct(cond ast.Expr, atom ast.Expr) bool {
+	switch x := cond.(type) {
+	case *ast.ParenExpr:
+		return topLevelDisjunct(x.X, atom)
+	case *ast.BinaryExpr:
+		if ast.Expr(x) == atom {
+			return true
+		}
+		if x.Op == token.LOR {
+			return topLevelDisjunct(x.X, atom) || topLevelDisjunct(x.Y, atom)
+		}
+	}
+	return cond == atom
 }
 
 // pathFactsGeneric: is `id != nil` established on the path to stmt (enclosing ifs, positive)?
@@ -589,6 +641,31 @@ func runC20(c *Ctx) {
 	}
 	if n == 0 {
 		c.ok(R1, storeFn, "-", "pkg/storage opens no file for writing by path; entries are created through os.CreateTemp")
+	}
+
+	const R3 = "reads-final-entry-only"
+	c.rule(R3, "every file-reading call in pkg/storage reads the final entry path (never a temporary or a name found by listing the directory)")
+	nr := 0
+	for _, fc := range calls {
+		if fc.name != "os.ReadFile" && fc.name != "os.Open" {
+			continue
+		}
+		nr++
+		for _, pc := range fc.paths {
+			c.check(pc.kind == "final", R3, fc.d.name+"#"+shortCallee(fc.name), c.P.Pos(fc.call.Pos()), "reads the final entry",
+				fmt.Sprintf("%s reads %s: only the renamed final entry is guaranteed complete; temporaries of an interrupted store can hold a decodable prefix", fc.name, pc.desc))
+		}
+	}
+	for _, pkf := range c.P.pkg("pkg/storage").Syntax {
+		for _, cs := range callsIn(c.P.pkg("pkg/storage"), pkf) {
+			switch cs.callee.FullName() {
+			case "os.ReadDir", "path/filepath.Glob", "path/filepath.Walk", "path/filepath.WalkDir", "io/ioutil.ReadDir":
+				c.bad(R3, "storage#"+shortCallee(cs.callee.FullName()), c.P.Pos(cs.call.Pos()), "pkg/storage enumerates the directory: entries must be addressed by their digest name only")
+			}
+		}
+	}
+	if nr == 0 {
+		c.undecided(R3, retrieveFn, "-", "no file-reading call found in pkg/storage")
 	}
 
 	const R2 = "replace-protocol"
